@@ -384,6 +384,8 @@ def _pure_cell(c: ast.AST) -> bool:
         return True          # operator.attrgetter('x') and friends: a pure accessor, as good as a lambda
     if isinstance(c, ast.Attribute):
         return _pure_cell(c.value)
+    if isinstance(c, (ast.Tuple, ast.List, ast.Set)):
+        return len(c.elts) <= 12 and all(isinstance(e, (ast.Constant, ast.Name, ast.Attribute)) and _pure_cell(e) for e in c.elts)
     if isinstance(c, ast.BoolOp):
         return all(_pure_cell(v) for v in c.values)
     if isinstance(c, ast.UnaryOp) and isinstance(c.op, ast.Not):
@@ -796,6 +798,40 @@ def norm_name(f: ast.AST) -> str:
     return ''
 
 
+def _eager_fusable(comp: ast.AST, body: List[ast.stmt]) -> bool:
+    """A LIST comprehension is complete before the loop over it starts; reading it as a filtered loop over its source is only the same when the loop body does
+    not change that source (`for k in [k for k in d if P]: del d[k]` must stay as it is).  Generator expressions are lazy: fusing them is always exact."""
+    if isinstance(comp, ast.GeneratorExp):
+        return True
+    src = comp.generators[0].iter
+    while isinstance(src, ast.Call) and isinstance(src.func, ast.Attribute) and src.func.attr in ('items', 'keys', 'values', 'copy') and not src.args:
+        src = src.func.value
+    if isinstance(src, ast.Call) and isinstance(src.func, ast.Name) and src.func.id in ('list', 'tuple', 'sorted', 'reversed', 'enumerate') and src.args:
+        src = src.args[0]
+    root = _attr_path(src) if isinstance(src, (ast.Name, ast.Attribute)) else None
+    if root is None:
+        return False
+    READS = {'get', 'items', 'keys', 'values', 'index', 'count', 'copy', 'startswith', 'endswith'}
+    for b in body:
+        for x in ast.walk(b):
+            if isinstance(x, (ast.Subscript, ast.Attribute)) and isinstance(x.ctx, (ast.Store, ast.Del)):
+                p_ = _attr_path(x.value) if isinstance(x.value, (ast.Name, ast.Attribute)) else None
+                if p_ is None or p_ == root or root.startswith(p_ + '.') or p_.startswith(root + '.'):
+                    return False
+            if isinstance(x, ast.Call):
+                if isinstance(x.func, ast.Attribute):
+                    p_ = _attr_path(x.func.value) if isinstance(x.func.value, (ast.Name, ast.Attribute)) else None
+                    if p_ == root and x.func.attr not in READS:
+                        return False
+                    if p_ != root and x.func.attr not in READS and not (p_ or '').startswith(root + '.'):
+                        # some other call: it may reach the source through another name (a method of self ...)
+                        if root.split('.')[0] in ('self', 'cls') or any(isinstance(a, (ast.Name, ast.Attribute)) and (_attr_path(a) or '') == root for a in x.args):
+                            return False
+                elif any(isinstance(a, (ast.Name, ast.Attribute)) and (_attr_path(a) or '') == root for a in x.args):
+                    return False
+    return True
+
+
 class Desugar(ast.NodeTransformer):
     def __init__(self, tables, classes=()):
         self.tables = tables            # name -> rows (module level and class level literal tables)
@@ -822,6 +858,37 @@ class Desugar(ast.NodeTransformer):
             return _literal_table(it)
         return None
 
+    def _d3f(self, node):
+        """D3f: any(E(a, b) for a, b in TABLE [if C])  ->  E(row1) or E(row2) ... ;  all(..) -> `and`   (TABLE a literal table of pure cells)"""
+        if isinstance(node.func, ast.Name) and node.func.id in ('any', 'all') and len(node.args) == 1 and not node.keywords \
+                and isinstance(node.args[0], (ast.GeneratorExp, ast.ListComp)) and len(node.args[0].generators) == 1:
+            import copy
+            g = node.args[0].generators[0]
+            shadowed = isinstance(g.iter, ast.Name) and getattr(self, 'stores', None) is not None and self.stores.get(g.iter.id, 0) > 0
+            rows = None if shadowed else self._rows(g.iter, {})
+            names = [g.target] if isinstance(g.target, ast.Name) else (list(g.target.elts) if isinstance(g.target, ast.Tuple) else [])
+            if rows and len(rows) <= 8 and names and all(isinstance(n_, ast.Name) for n_ in names) and (
+                    (isinstance(g.target, ast.Tuple) and len(rows[0]) == len(names)) or isinstance(g.target, ast.Name)):
+                is_any = node.func.id == 'any'
+                vals = []
+                for row in rows:
+                    m = dict(zip((n_.id for n_ in names), row)) if isinstance(g.target, ast.Tuple) else {names[0].id: ast.Tuple(elts=list(row), ctx=ast.Load())}
+                    sub = _Subst(m)
+                    e = sub.visit(copy.deepcopy(node.args[0].elt))
+                    conds = [sub.visit(copy.deepcopy(c)) for c in g.ifs]
+                    if conds:
+                        c_all = conds[0] if len(conds) == 1 else ast.BoolOp(op=ast.And(), values=conds)
+                        e = ast.BoolOp(op=ast.And(), values=[c_all, e]) if is_any else ast.BoolOp(op=ast.Or(), values=[ast.UnaryOp(op=ast.Not(), operand=c_all), e])
+                    vals.append(e)
+                out = vals[0] if len(vals) == 1 else ast.BoolOp(op=ast.Or() if is_any else ast.And(), values=vals)
+                if len(vals) == 1:
+                    out = ast.Call(func=ast.Name(id='bool', ctx=ast.Load()), args=[out], keywords=[])
+                for x in ast.walk(out):
+                    if not hasattr(x, 'lineno'):
+                        ast.copy_location(x, node)
+                return ast.copy_location(out, node)
+        return node
+
     def visit_FunctionDef(self, node):
         from collections import Counter
         saved = getattr(self, 'loads', None)
@@ -838,6 +905,15 @@ class Desugar(ast.NodeTransformer):
             if k_ not in self.stores:
                 const_locals.setdefault(k_, v_)
         node = _FormatToFString(const_locals).visit(node)
+        if any(isinstance(x, ast.Call) and isinstance(x.func, ast.Name) and x.func.id in ('any', 'all') for x in ast.walk(node)):
+            outer = self
+
+            class _D3f(ast.NodeTransformer):
+                def visit_Call(self_, c):
+                    self_.generic_visit(c)
+                    return outer._d3f(c)
+            node = _D3f().visit(node)
+            ast.fix_missing_locations(node)
         # D15: p = partial(F, a, k=v) ; ... p(x)   ->   F(a, x, k=v)      (p bound once)
         partials = {}
         for x in ast.walk(node):
@@ -1070,6 +1146,47 @@ class Desugar(ast.NodeTransformer):
                     body.insert(bi, asg)
                     bi += 1
             bi += 1
+        # D20: if A: f = X elif B: f = Y else: raise ... ; S(f(args))     ->     the statement S moves into each branch with the callable in place
+        #      (f bound to a plain callable - a name, attrgetter/methodcaller, a lambda - as the last statement of every branch that falls through; f read once)
+        bi = 0
+        while bi + 1 < len(body):
+            b0, b1 = body[bi], body[bi + 1]
+            done = False
+            if isinstance(b0, ast.If) and isinstance(b1, (ast.Return, ast.Assign, ast.Expr)) and getattr(self, 'loads', None) is not None:
+                calls = [c for c in ast.walk(b1) if isinstance(c, ast.Call) and isinstance(c.func, ast.Name) and self.loads.get(c.func.id, 0) == 1]
+                for c in calls:
+                    v = c.func.id
+                    leaves: List[List[ast.stmt]] = []
+
+                    def collect(node) -> bool:
+                        ok = True
+                        for blk in (node.body, node.orelse):
+                            if len(blk) == 1 and isinstance(blk[0], ast.If) and blk is node.orelse:
+                                ok = collect(blk[0]) and ok
+                            else:
+                                leaves.append(blk)
+                        return ok
+                    collect(b0)
+                    falls = [blk for blk in leaves if not (blk and isinstance(blk[-1], (ast.Raise, ast.Return, ast.Continue, ast.Break)))]
+                    if not falls or not all(blk and isinstance(blk[-1], ast.Assign) and len(blk[-1].targets) == 1 and isinstance(blk[-1].targets[0], ast.Name)
+                                            and blk[-1].targets[0].id == v and _pure_cell(blk[-1].value) for blk in falls):
+                        continue
+                    if self.stores.get(v, 0) != len(falls):
+                        continue
+                    for blk in falls:
+                        val = blk[-1].value
+                        stmt = copy.deepcopy(b1)
+                        for c2 in ast.walk(stmt):
+                            if isinstance(c2, ast.Call) and isinstance(c2.func, ast.Name) and c2.func.id == v:
+                                c2.func = copy.deepcopy(val)
+                        stmt = _Subst({}).visit(stmt)
+                        ast.fix_missing_locations(stmt)
+                        blk[-1] = stmt
+                    del body[bi + 1]
+                    self.stores[v] = 0
+                    done = True
+                    break
+            bi += 1
         # D19: if C: v = <display A> else: v = <display B>   ->   v = A if C else B      (one binding; D9 then reads joins over it)
         for bi, b0 in enumerate(body):
             if isinstance(b0, ast.If) and len(b0.body) == 1 and len(b0.orelse) == 1 and all(
@@ -1238,14 +1355,51 @@ class Desugar(ast.NodeTransformer):
                         if not hasattr(x, 'lineno'):
                             ast.copy_location(x, st)
                     ast.copy_location(nd, st)
+                # a Counter answers 0 for a key it has not seen: later reads `V[k]` are `V.get(k, 0)` on the plain dict
+                if getattr(self, 'stores', None) is not None and self.stores.get(v, 0) == 1:
+                    class _CounterReads(ast.NodeTransformer):
+                        def visit_Subscript(self_, n):
+                            self_.generic_visit(n)
+                            if isinstance(n.ctx, ast.Load) and isinstance(n.value, ast.Name) and n.value.id == v:
+                                call = ast.Call(func=ast.Attribute(value=n.value, attr='get', ctx=ast.Load()), args=[n.slice, ast.Constant(value=0)], keywords=[])
+                                for x in ast.walk(call):
+                                    if not hasattr(x, 'lineno'):
+                                        ast.copy_location(x, n)
+                                return ast.copy_location(call, n)
+                            return n
+                    body[i + 1:] = [_CounterReads().visit(b) for b in body[i + 1:]]
                 body[i:i + 1] = [init, loop]
+                continue
+            # D10c: for x in (E(y) for y in IT if P): BODY   ->   for y in IT: if P: x = E(y) ; BODY        (a pure filter keeps x as the loop variable)
+            if isinstance(st, ast.For) and isinstance(st.iter, (ast.GeneratorExp, ast.ListComp)) and isinstance(st.target, ast.Name) and not st.orelse \
+                    and len(st.iter.generators) == 1 and isinstance(st.iter.generators[0].target, ast.Name) and _eager_fusable(st.iter, st.body):
+                g = st.iter.generators[0]
+                gv = g.target.id
+                if isinstance(st.iter.elt, ast.Name) and st.iter.elt.id == gv:
+                    ren = _Subst({gv: ast.Name(id=st.target.id, ctx=ast.Load())})
+                    inner_c: List[ast.stmt] = list(st.body)
+                    for cnd in reversed(g.ifs):
+                        inner_c = [ast.If(test=ren.visit(copy.deepcopy(cnd)), body=inner_c, orelse=[])]
+                    loop = ast.For(target=st.target, iter=g.iter, body=inner_c, orelse=[])
+                else:
+                    bind = ast.Assign(targets=[ast.Name(id=st.target.id, ctx=ast.Store())], value=st.iter.elt)
+                    inner_c = [bind] + list(st.body)
+                    for cnd in reversed(g.ifs):
+                        inner_c = [ast.If(test=cnd, body=inner_c, orelse=[])]
+                    loop = ast.For(target=g.target, iter=g.iter, body=inner_c, orelse=[])
+                for x in ast.walk(loop):
+                    if not hasattr(x, 'lineno'):
+                        ast.copy_location(x, st)
+                ast.copy_location(loop, st)
+                ast.fix_missing_locations(loop)
+                body[i] = loop
                 continue
             # D10b: G = (E for y in IT) ; ... for x in G: BODY   (G used only there)   ->   for y in IT: x = E ; BODY
             if isinstance(st, ast.For) and isinstance(st.iter, ast.Name) and isinstance(st.target, ast.Name) and not st.orelse and getattr(self, 'loads', None) is not None \
                     and self.loads.get(st.iter.id, 0) == 1 and self.stores.get(st.iter.id, 0) == 1:
                 gdef = [(k_, o) for k_, o in enumerate(out) if isinstance(o, ast.Assign) and len(o.targets) == 1 and isinstance(o.targets[0], ast.Name)
                         and o.targets[0].id == st.iter.id and isinstance(o.value, (ast.GeneratorExp, ast.ListComp)) and len(o.value.generators) == 1]
-                if len(gdef) == 1:
+                if len(gdef) == 1 and _eager_fusable(gdef[0][1].value, st.body):
                     k_, o = gdef[0]
                     g = o.value.generators[0]
                     bind = ast.Assign(targets=[ast.Name(id=st.target.id, ctx=ast.Store())], value=o.value.elt)
@@ -1697,6 +1851,64 @@ class _MatchToIf(ast.NodeTransformer):
         return ast.copy_location(out, node)
 
 
+def alias_paths_nested(tree: ast.AST, computed=frozenset()) -> ast.AST:
+    """`v = a.b.c` inside a branch / loop body, v bound only there and read only by the statements that follow it in the same block, a.b.c not re-bound in
+    the function: the reads of v become a.b.c (what `match x.y: case C() as v:` leaves behind, or a helper's local after inlining)."""
+    for fn in [n for n in ast.walk(tree) if isinstance(n, (ast.FunctionDef, ast.AsyncFunctionDef))]:
+        params = {a.arg for a in fn.args.args + fn.args.kwonlyargs + fn.args.posonlyargs}
+        if fn.args.vararg:
+            params.add(fn.args.vararg.arg)
+        if fn.args.kwarg:
+            params.add(fn.args.kwarg.arg)
+        for _ in range(6):
+            stores: dict = {}
+            loads: dict = {}
+            for x in ast.walk(fn):
+                if isinstance(x, ast.Name):
+                    d = stores if isinstance(x.ctx, (ast.Store, ast.Del)) else loads
+                    d[x.id] = d.get(x.id, 0) + 1
+            attr_stores = {x.attr for x in ast.walk(fn) if isinstance(x, ast.Attribute) and isinstance(x.ctx, (ast.Store, ast.Del))}
+            nested = {x.id for d in ast.walk(fn) if d is not fn and isinstance(d, (ast.FunctionDef, ast.AsyncFunctionDef, ast.Lambda, ast.ClassDef))
+                      for x in ast.walk(d) if isinstance(x, ast.Name)}
+            changed = False
+            for holder in ast.walk(fn):
+                if holder is fn:
+                    continue
+                for fld in ('body', 'orelse', 'finalbody'):
+                    blk = getattr(holder, fld, None)
+                    if not (isinstance(blk, list) and blk and isinstance(blk[0], ast.stmt)):
+                        continue
+                    in_loop = isinstance(holder, (ast.For, ast.While)) and fld == 'body'
+                    for i, st in enumerate(blk):
+                        if not (isinstance(st, ast.Assign) and len(st.targets) == 1 and isinstance(st.targets[0], ast.Name) and _attr_path(st.value)):
+                            continue
+                        v = st.targets[0].id
+                        pth = _attr_path(st.value)
+                        root, attrs = pth.split('.')[0], pth.split('.')[1:]
+                        if v in params or v in nested or stores.get(v, 0) != 1 or v == root:
+                            continue
+                        if stores.get(root, 0) > (0 if root in params else 1) or any(a in attr_stores for a in attrs) or any(a in computed for a in attrs):
+                            continue
+                        if stores.get(root, 0) == 1 and root not in params and in_loop:
+                            pass
+                        later = sum(1 for s_ in blk[i + 1:] for x in ast.walk(s_) if isinstance(x, ast.Name) and x.id == v and isinstance(x.ctx, ast.Load))
+                        if later == 0 or later != loads.get(v, 0):
+                            continue
+                        sub = _PathSubst(v, st.value)
+                        blk[i + 1:] = [sub.visit(s_) for s_ in blk[i + 1:]]
+                        del blk[i]
+                        changed = True
+                        break
+                    if changed:
+                        break
+                if changed:
+                    break
+            if not changed:
+                break
+    ast.fix_missing_locations(tree)
+    return tree
+
+
 def split_live_ranges(tree: ast.AST) -> ast.AST:
     """D16: a local that is re-bound by plain assignments at the top level of the function body only (`v = A; use(v); v = B; use(v)`) names a different
     value in each stretch; the later stretches get their own name (`v__2`), so each is a local bound once and the alias rules apply to each."""
@@ -1792,13 +2004,20 @@ def canonicalise(tree: ast.AST, computed_attrs=frozenset()) -> ast.AST:
     tree = alias_paths(tree, computed_attrs)
     tree = propagate_module_strings(tree)
     try:
-        tree = desugar(tree)
-        ast.fix_missing_locations(tree)
-        tree = desugar(tree)        # a second pass: the statements one rewrite produces may be the input of another (unrolled rows that contain `:=`, ...)
+        # repeated to a fixpoint (at most 4 passes): the statements one rewrite produces may be the input of another (unrolled rows that contain `:=`, ...)
+        prev = None
+        for _ in range(4):
+            tree = desugar(tree)
+            ast.fix_missing_locations(tree)
+            cur = ast.dump(tree)
+            if cur == prev:
+                break
+            prev = cur
     except RecursionError:      # pragma: no cover
         pass
     tree = split_live_ranges(tree)
     tree = alias_paths(tree, computed_attrs)
+    tree = alias_paths_nested(tree, computed_attrs)
     tree = inline_test_locals(tree)
     tree = Canon().visit(tree)
     ast.fix_missing_locations(tree)
